@@ -22,6 +22,8 @@ R1.11 RenderContext's completion of "incomplete" internal module paths never app
 R1.10 the tag client modules client.py imports are the ones the endpoints emitter writes (grouping agreement, rules of C07)
 R1.16 the overload signatures (parameters in document order) carry no default in front of the keyword-only `*`
 R1.15 enum members of one class get pairwise distinct names (duplicate member = TypeError at import)            [= R20.2, enum members]
+R1.17 a schema object outside the registry (property stub) that is given a class name is given its module stem in the same place
+R1.18 imports executed when a shipped runtime module is imported (module level, not optional) are stdlib / httpx / cattrs / relative
 R1.9  duplicate argument names cannot be emitted (operation-level override + de-dup)                     [= R4.4 / R20.2]
 """
 from __future__ import annotations
@@ -76,6 +78,10 @@ def run(repo: Repo, rep: Report, tier: str) -> None:
     rule_required_first(repo, rep, "R1.13")
     rule_no_default_before_star(repo, rep, "R1.16")
     rule_no_value_return_in_stream(repo, rep, "R1.14")
+    rule_named_stub_has_module(repo, rep, "R1.17")
+    from rules.c12 import rule_import_time_imports
+
+    rule_import_time_imports(repo, rep, "R1.18")
     # R1.12: nothing that ends a source line survives into a `# comment` built from spec text (instances of R15.1 in COMMENT position)
     from rules._reuse import reuse as _reuse112
 
@@ -967,3 +973,83 @@ def _ancestors_of(n: ast.AST):
     while x is not None:
         yield x
         x = parent(x)
+
+
+# ------------------------------------------------------------------------------------------------ R1.17 a schema named outside the registry gets its module too
+_R117_EXAMPLE = '''
+def unify(variant, unified_name):
+    stub = IRSchema(name=unified_name, type="string")
+    stub.generation_name = unified_name
+    variant.properties["kind"] = stub
+'''
+
+
+def _named_without_module(tree: ast.AST):
+    """[(function node, receiver name, statement)] for every `R.generation_name = ...` whose receiver is *not an entry of the schema registry*
+    (it is constructed in this function, or it is a property schema: a loop variable over / an element of `<x>.properties`) and that is not
+    accompanied, in the same statement list, by `R.final_module_stem = ...` (or a `final_module_stem=` keyword of the constructor)."""
+    out, n_sites = [], 0
+    for fn in ast.walk(tree):
+        if not isinstance(fn, (ast.FunctionDef, ast.AsyncFunctionDef)):
+            continue
+        fresh, prop = {}, set()
+        for st in ast.walk(fn):
+            if isinstance(st, (ast.Assign, ast.AnnAssign)):
+                tgts = st.targets if isinstance(st, ast.Assign) else [st.target]
+                v = st.value
+                for t in tgts:
+                    if isinstance(t, ast.Name) and isinstance(v, ast.Call):
+                        nm = dotted(v.func) or ""
+                        if nm.split(".")[-1] in ("IRSchema", "replace", "copy", "deepcopy"):
+                            fresh[t.id] = v
+                    if isinstance(t, ast.Name) and v is not None and any(isinstance(x, ast.Attribute) and x.attr == "properties" for x in ast.walk(v)) \
+                            and isinstance(v, (ast.Subscript, ast.Call)):
+                        prop.add(t.id)
+            elif isinstance(st, (ast.For, ast.comprehension)) and any(isinstance(x, ast.Attribute) and x.attr == "properties" for x in ast.walk(st.iter)):
+                prop |= {x.id for x in ast.walk(st.target) if isinstance(x, ast.Name)}
+        for body_owner in ast.walk(fn):
+            for fld in ("body", "orelse", "finalbody"):
+                stmts = getattr(body_owner, fld, None)
+                if not isinstance(stmts, list):
+                    continue
+                for st in stmts:
+                    if not (isinstance(st, ast.Assign) and len(st.targets) == 1 and isinstance(st.targets[0], ast.Attribute) and st.targets[0].attr == "generation_name"
+                            and isinstance(st.targets[0].value, ast.Name)):
+                        continue
+                    r = st.targets[0].value.id
+                    if r not in fresh and r not in prop:
+                        continue
+                    n_sites += 1
+                    paired = any(isinstance(s2, ast.Assign) and any(isinstance(t, ast.Attribute) and t.attr == "final_module_stem" and isinstance(t.value, ast.Name) and t.value.id == r
+                                                                      for t in s2.targets) for s2 in stmts)
+                    in_ctor = r in fresh and any(k.arg == "final_module_stem" for k in fresh[r].keywords)
+                    if not (paired or in_ctor):
+                        out.append((fn, r, st))
+    return out, n_sites
+
+
+def rule_named_stub_has_module(repo: Repo, rep, rule: str = "R1.17") -> None:
+    """ModelsEmitter gives class names and module stems to the schemas *of the registry*.  A schema object that exists only as a property of
+    another schema (the unified discriminator stub, the reference left behind by inline-enum extraction) is never seen by the emitter: the
+    code that gives it a class name (`generation_name`) must give it the module as well, otherwise the type resolver renders the bare class
+    name and registers no import (`_resolve_named_schema`: no final_module_stem -> no import) and the model module fails with NameError."""
+    hz, n = _named_without_module(ast.parse(_R117_EXAMPLE))
+    rep.require(len(hz) == 1 and n == 1, f"{rule}: the built-in positive example is no longer recognised - the rule is broken")
+    live = repo.import_closure(["generator.client_generator"])
+    n_sites = 0
+    for mn in live:
+        if not (".core.loader" in mn or ".core.parsing" in mn or ".helpers." in mn):
+            continue
+        mod = repo.modules[mn]
+        hz, n = _named_without_module(mod.tree)
+        n_sites += n
+        bad = {id(st) for _, _, st in hz}
+        for fn, r, st in hz:
+            rep.violation(rule, f"{mod.relpath}:{fn.name} `{norm(st)[:70]}`", f"{mod.name}:{fn.name}|class-name-without-module|{r}",
+                          f"`{r}` is not an entry of the schema registry (the models emitter never names it), it gets a class name here but no `final_module_stem`: "
+                          "every model that uses it as a field type mentions the class without importing it (NameError when the models package is imported)",
+                          f"{mod.relpath}:{st.lineno}")
+        if n and not hz:
+            rep.ok(rule, f"{mod.relpath} schemas named outside the registry", f"{n} site(s): each sets generation_name together with final_module_stem", f"{mod.relpath}:1")
+    rep.count(f"{rule}:naming_sites_outside_registry", n_sites)
+    rep.require(n_sites >= 4, f"{rule}: only {n_sites} naming sites of non-registry schemas found in loader/parsing/helpers (floor 4)")
